@@ -177,6 +177,15 @@ func check(spec *ukit.Spec, res *ux.Result, only *replay) {
 	if spec.Kind == ukit.KTypedEnum {
 		natives = append(natives, ukit.MyStr("a"), ukit.MyStr("zzz"), ukit.MyStr(""))
 	}
+	// values of the native type that only exist in Go: a nil *regexp.Regexp where a pattern belongs (alone, as a list
+	// item, as a map value) - of the right type, and not a pattern
+	for _, nv := range natives[:len(natives):len(natives)] {
+		for _, c := range ukit.NativeCorruptions(spec, nv) {
+			if c.Kind == "missing pattern" {
+				natives = append(natives, c.Value)
+			}
+		}
+	}
 	seen := map[string]bool{}
 	for i, nv := range natives {
 		k := ukit.Snapshot(nv)
